@@ -187,5 +187,5 @@ func checkC14(ctx *Ctx) {
 	}
 	ctx.exhaustive = false
 	gens, weights := c14Gens()
-	randomLane(ctx, "random", ctx.N(500, 8000), gens, weights, c14Universe(), 40, 60, 0.03, lightInst)
+	randomLane(ctx, "random", ctx.N(1500, 12000), gens, weights, c14Universe(), 40, 60, 0.03, lightInst)
 }
